@@ -15,6 +15,7 @@ install() patches IOLoop.current and the asyncio current/running loop; uninstall
 import asyncio
 import collections
 import contextvars
+import inspect
 
 from tornado import ioloop as _ioloop
 
@@ -33,8 +34,23 @@ class _Handle:
         return self.cancelled
 
 
+async def _engine_guard(coro, venv):
+    """asyncio.Task stores ANY BaseException raised by its coroutine.  The symbolic-execution engine steers
+    with BaseException subclasses (path timeout, ignore-attempt, ...); swallowed by a Task they would surface
+    later as a bogus "task raised PathTimeout" counterexample.  The guard remembers such an exception and
+    VEnv._call re-raises it outside the Task, so the engine sees its own control flow.  Ordinary exceptions,
+    CancelledError and GeneratorExit pass through untouched."""
+    try:
+        return await coro
+    except BaseException as e:
+        if not isinstance(e, (Exception, asyncio.CancelledError, GeneratorExit, KeyboardInterrupt, SystemExit)):
+            venv.engine_exc = e
+        raise
+
+
 class VEnv:
     def __init__(self, start=1000):
+        self.engine_exc = None
         self.now = start
         self.ready = collections.deque()
         self.timers = []
@@ -64,6 +80,9 @@ class VEnv:
                 h.cb(*h.args)
         except Exception as e:  # asyncio logs and continues; record for oracles
             self.exc_contexts.append({"message": "exception in callback", "exception": e})
+        if self.engine_exc is not None:
+            e, self.engine_exc = self.engine_exc, None
+            raise e
 
     def run_ready(self):
         """Drain the callback queue (including callbacks scheduled while draining)."""
@@ -130,6 +149,8 @@ class FakeAio(asyncio.AbstractEventLoop):
         return asyncio.Future(loop=self)
 
     def create_task(self, coro, *, name=None, context=None):
+        if inspect.iscoroutine(coro):
+            coro = _engine_guard(coro, self.v)
         if context is not None:
             return asyncio.Task(coro, loop=self, name=name, context=context)
         return asyncio.Task(coro, loop=self, name=name)
